@@ -167,7 +167,8 @@ impl Scenario for C04Handles {
         let hist: Arc<Mutex<Vec<Ev>>> = Arc::new(Mutex::new(vec![]));
         let finals: Arc<Mutex<(u64, u64, Vec<u64>, Vec<(u64, u64)>, Vec<u64>, u64)>> = Arc::new(Mutex::new((0, 0, vec![], vec![], vec![], 0)));
         let p = plan.clone();
-        let (h2, f2) = (hist.clone(), finals.clone());
+        let seq_err: Arc<Mutex<Option<String>>> = Arc::new(Mutex::new(None));
+        let (h2, f2, se2) = (hist.clone(), finals.clone(), seq_err.clone());
         let sim = simulate(sched, 60_000, move || {
             let c_store = Arc::new(AtomicU64::new(0));
             let g_store = Arc::new(AtomicU64::new(0f64.to_bits()));
@@ -244,6 +245,30 @@ impl Scenario for C04Handles {
             f.3 = many.log.lock().unwrap().clone();
             f.4 = one.log.lock().unwrap().clone();
             f.5 = set_seen;
+            drop(f);
+            // sequential epilogue over two retained clones: a set leaves exactly the value given,
+            // also when the same handle set that same value before and another clone moved the
+            // gauge in between
+            let (a, b) = (gauge.clone(), gauge.clone());
+            let mut steps: Vec<(&str, u64)> = vec![];
+            a.set(5.0);
+            steps.push(("a.set(5)", g_store.load(Ordering::SeqCst)));
+            b.increment(1.0);
+            steps.push(("b.increment(1)", g_store.load(Ordering::SeqCst)));
+            a.set(5.0);
+            steps.push(("a.set(5)", g_store.load(Ordering::SeqCst)));
+            b.set(7.0);
+            steps.push(("b.set(7)", g_store.load(Ordering::SeqCst)));
+            a.set(5.0);
+            steps.push(("a.set(5)", g_store.load(Ordering::SeqCst)));
+            a.decrement(2.0);
+            steps.push(("a.decrement(2)", g_store.load(Ordering::SeqCst)));
+            a.set(5.0);
+            steps.push(("a.set(5)", g_store.load(Ordering::SeqCst)));
+            let want = [5.0f64, 6.0, 5.0, 7.0, 5.0, 3.0, 5.0];
+            if steps.iter().zip(want.iter()).any(|(s, w)| f64::from_bits(s.1) != *w) {
+                *se2.lock().unwrap() = Some(format!("sequence {:?} left the gauge at {:?}, expected {:?}", steps.iter().map(|s| s.0).collect::<Vec<_>>(), steps.iter().map(|s| f64::from_bits(s.1)).collect::<Vec<_>>(), want));
+            }
         });
         let mut rep = RunReport::ok(sim);
         let simr = rep.sim.as_ref().unwrap();
@@ -254,6 +279,11 @@ impl Scenario for C04Handles {
             v = violation("panic", format!("{:?}", simr.panics));
         } else if simr.end == dsim::End::Completed {
             v = check(plan, &h, &f);
+            if v.is_none() {
+                if let Some(d) = seq_err.lock().unwrap().clone() {
+                    v = violation("gauge-set-exact", d);
+                }
+            }
         }
         rep.observations = format!("{:?} finals={:?}", h, f);
         rep.history_hash = crate::util::hash_str(&rep.observations);
